@@ -2,16 +2,18 @@ package main
 
 import (
 	"fmt"
+	"strings"
 	"verif/checker/eng"
+	"verif/checker/rules"
 )
 
 func main() {
 	p, err := eng.Load(eng.LoadConfig{})
 	if err != nil { panic(err) }
-	fn := p.Func("tabula.(*Extractor).validateFormat")
-	for _, r := range eng.Returns(fn) {
-		v := eng.ReturnValues(r)[0]
-		nn, known := eng.ErrValueNonNil(v)
-		fmt.Printf("block %d: %v (%T) nonNil=%v known=%v\n", r.Block().Index, v, v, nn, known)
+	for _, n := range []string{"layout.(*ColumnDetector).validateColumns", "rag.(*Chunker).buildSections"} {
+		for _, r := range rules.AnalyseLoopsDebug(p, n) {
+			fmt.Println(n, r.Elem, "transfers", r.Transfers)
+			for _, s := range r.Skips { fmt.Println("   skip empty=", s.Empty, strings.Join(s.Conds, " && ")) }
+		}
 	}
 }
